@@ -38,6 +38,14 @@ def scenarios(ctx, thorough):
             scs.append(S.mk(sid, "answer-dispatched-before-send-returns", "dispatch",
                             [S.call("c1", 11, kind), {"a": "Answer", "tags": [11], "gzip": [gz], "n": 400}, {"a": "Sleep", "n": 250},
                              {"a": "Release", "c": "c1"}, {"a": "Drain"}, {"a": "Settle"}], gates=["send.written"]))
+    # results that stand behind an item the client cannot use (a result nobody waits for, an object of a newer layer,
+    # a cut body) in the same container still reach their callers
+    for junk in S.JUNK:
+        sid += 1
+        scs.append(S.mk(sid, "results-behind-" + junk, "dispatch",
+                        [S.call("c%d" % i, 30 + i, k) for i, k in enumerate(S.ALL_KINDS)] +
+                        [{"a": "Answer", "tags": [32, 30, 34, 31, 33], "container": True, "gzip": [False, True, False, False, True],
+                          "junk": junk, "junkat": "first", "n": 600}, {"a": "Drain"}, {"a": "Settle"}]))
     # every result kind alone and in a container with gzip variants
     sid += 1
     scs.append(S.mk(sid, "all-kinds-one-container", "dispatch",
